@@ -76,6 +76,18 @@ macro_rules! cursor_write {
             }
             assert!(a.as_bytes().as_ptr() as usize % core::mem::align_of::<$t>() == 0, "[C19/aligned] storage starts at an address aligned to the alignment type");
             core::mem::forget(ra);
+            // representation invariant that makes the per-operation lemmas compose to
+            // histories of any length: the storage covers the contents and is zero
+            // past them (every start state built above satisfies it)
+            let unit = core::mem::size_of::<$t>();
+            let (store, l) = a.into_parts();
+            assert!(l == new_len, "[C19/len] into_parts reports the length");
+            assert!(store.len() * unit >= new_len, "[C19/invariant.covers] the storage covers the contents");
+            let j = sym_index($maxpos + $maxw + 1 + 64);
+            if j >= new_len && j < store.len() * unit {
+                let raw = unsafe { core::slice::from_raw_parts(store.as_ptr() as *const u8, store.len() * unit) };
+                assert!(raw[j] == 0, "[C19/invariant.zero_tail] storage past the contents is zero (a later write past the end relies on it for the gap)");
+            }
             kani::cover!(pos > len && w > 0, "[cover] write past the end (gap) reached");
             kani::cover!(pos > len && w == 0, "[cover] empty write past the end reached");
         }
